@@ -398,10 +398,15 @@ static void applyShape(vh::Rng &g, Spec &s, int shape) {
       for (auto &r : s.rows) rowArea += (long long)r.width() * r.height();
       for (int i : mov) area += (long long)s.w[i] * s.h[i];
       int guard = 0;
-      while (area <= rowArea && !mov.empty() && guard++ < 200) {
+      while (area <= rowArea && !mov.empty() && guard++ < 8) {
         int i = g.pick(mov);
         s.addCell(s.w[i], s.h[i], s.x[i], s.y[i], false, s.ob[i], s.o[i], s.pol[i]);
         area += (long long)s.w[i] * s.h[i];
+      }
+      if (area <= rowArea && !s.rows.empty()) {  // still feasible: shrink the rows instead of adding hundreds of cells
+        long long H = s.rows[0].height(), nR = s.rows.size();
+        long long wNew = std::max(1ll, area / (2 * H * nR));
+        for (auto &r : s.rows) r.maxX = r.minX + (int)std::min<long long>(r.width(), wNew);
       }
       break;
     }
